@@ -1036,6 +1036,12 @@ func (env *Env) modLocs(e Expr) []ModLoc {
 		if e.Fn == "boxes" {
 			return []ModLoc{{Key: "B.*", Whole: true}}
 		}
+		if e.Fn == "allof" && len(e.Args) == 1 {
+			// allof("H.logFuture."): every heap array whose key starts with the prefix
+			if sl, ok := e.Args[0].(*EStr); ok {
+				return []ModLoc{{Key: sl.S + "*", Whole: true}}
+			}
+		}
 	case *EIdent:
 		if gt, ok := ex.ctr.Ghosts[e.Name]; ok {
 			var out []ModLoc
